@@ -131,6 +131,24 @@ def opOracle (op : String) (c : Ctx) (x y : Dec) (iarg : Int) (o : Out) : List (
       [("C11", s!"Sqrt Inexact={o.fl.inexact} but exact-root test says {s.inexact}"),
        ("C02", s!"Sqrt Inexact={o.fl.inexact} but the root is {if s.inexact then "not " else ""}exactly representable")])
   | "cbrt" =>
+    -- C11 promises a VALUE for every finite operand: an error that is not a trap of the caller's is a failure.
+    -- C11_cbrt_returns proves there is none under the side condition CbrtSide; the two regions outside it where the
+    -- code really fails are known findings (system error at the edges of the exponent / precision range: the shape
+    -- predicate below is the negation of clauses 2-7 of CbrtSide; no convergence at Precision 1 for huge exponents)
+    if x.form == .finite && x.coeff != 0 && (o.err == .sys || o.err == .other) then
+      let p : Int := c.prec
+      let adj : Int := x.exp + (ndigits x.coeff : Int) - 1
+      let edge : Bool := c.prec > 24999 || ndigits x.coeff > 99990 || x.exp < -99988 + 2 * p ||
+        adj / 3 - (2 * p + 2) < -50000 || adj / 3 > 33331 || 3 * (adj / 3 - p) < -100000
+      if o.err == .sys then
+        (if edge then [("C11", "cbrt-syslimit-edge: Cbrt returns 'exponent out of range' for an operand or precision at the edge of the package limits")]
+         else [("C11", "Cbrt returns a system error for an operand well inside the limits")])
+      else
+        (if c.prec == 1 && (8 * adj.natAbs + 20) * 5 > 4 * 10 ^ (c.prec * 2 + 2) then
+           [("C11", "cbrt-no-convergence-p1: at Precision 1 the Newton iteration of Cbrt does not converge within its iteration limit for operands with a huge exponent")]
+         else if edge then [("C11", "cbrt-syslimit-edge: Cbrt fails internally for an operand or precision at the edge of the package limits")]
+         else [("C11", "Cbrt returns an error (no convergence or an internal failure) for a finite operand inside the limits")])
+    else
     if x.coeff == 0 || !(delivered o.err) then [] else
     if o.d.form != .finite then [] else
     (if o.d.neg == x.neg then [] else [("C11", "Cbrt sign")]) ++
